@@ -35,6 +35,12 @@ pub enum Delay {
     AfterRetransmissions(u32),
     /// never answered: runs into the final time-out
     Never,
+    /// an ERROR response after this many ms (a completed transaction like any other)
+    ErrorMs(u64),
+    /// a timer call halfway to the first retransmission (nothing is retransmitted), then the response 5 ms later
+    EarlyTimerThenAnswer,
+    /// a second request is sent 2 ms after this one; this one is answered after `.0` ms, the second after `.1` ms
+    Overlap(u64, u64),
 }
 
 #[derive(Clone, Copy, Debug, PartialEq, Eq, Hash)]
@@ -143,9 +149,72 @@ pub fn run_chain(cfg: &Cfg, apps: &Arc<Vec<Vec<L>>>, chain: &[(Delay, Gap)], rep
         rep.nontrivial(&(cfg, k, (got / 1000.0) as u64));
         // play the transaction
         let rto_i = run.w.reqs[i].rto_ns;
-        let ok = Reply::plain(RClass::Success);
+        let mut ok = Reply::plain(RClass::Success);
         let mut retransmitted = false;
+        if let Delay::Overlap(a_ms, b_ms) = delay {
+            // two overlapping transactions: the second starts on the same estimate (no sample yet)
+            explore::step(&mut run, &Event::AdvanceTo(t0 + 2 * MS), None);
+            let ob = explore::step(&mut run, &Event::Send { app: 0 }, None);
+            steps += 2;
+            last_request_at = Some(t0 + 2 * MS);
+            let CallRes::SendOk(j) = ob.res else {
+                rep.violate("send-fails-in-chain", format!("{:?}", ob.res), replay(&hist));
+                break;
+            };
+            let got_b = run.w.reqs[j].rto_ns as f64;
+            if (got_b - reference.rto).abs() > tol {
+                rep.violate(
+                    "initial-interval-differs-from-rfc6298/overlapping-request",
+                    format!("second of two overlapping requests: client {} ns, reference {:.1} ns", got_b, reference.rto),
+                    replay(&hist),
+                );
+                break;
+            }
+            let mut arrivals = vec![(t0 + a_ms * MS, i, a_ms * MS), (t0 + (2 + b_ms) * MS, j, b_ms * MS)];
+            arrivals.sort();
+            let mut bad = false;
+            for (at, who, r) in arrivals {
+                explore::step(&mut run, &Event::AdvanceTo(at), None);
+                let o = explore::step(&mut run, &Event::Deliver { to: Target::Req(who), reply: ok }, None);
+                steps += 2;
+                if !matches!(o.res, CallRes::RecvOk) {
+                    rep.violate("response-refused-in-chain", format!("{:?}", o.res), replay(&hist));
+                    bad = true;
+                    break;
+                }
+                reference.sample(r as f64);
+                rep.sym("sampled-overlapping");
+            }
+            if bad {
+                break;
+            }
+            if let Gap::Ms(ms) = gap {
+                let t = t0 + 2 * MS + ms * MS;
+                if t > run.w.now {
+                    explore::step(&mut run, &Event::AdvanceTo(t), None);
+                    steps += 1;
+                }
+            }
+            continue;
+        }
         let answer_at = match delay {
+            Delay::Overlap(..) => unreachable!(),
+            Delay::ErrorMs(ms) => {
+                ok = Reply::plain(RClass::Error(400));
+                rep.sym("error-response-sampled");
+                Some(t0 + ms * MS)
+            }
+            Delay::EarlyTimerThenAnswer => {
+                let half = t0 + rto_i / 2;
+                let o = explore::step(&mut run, &Event::TimerAt(half), None);
+                steps += 1;
+                if o.events.iter().any(|e| matches!(e, OEv::Out { .. })) {
+                    rep.violate("early-timer-call-retransmits", "", replay(&hist));
+                    break;
+                }
+                rep.sym("early-timer-then-answer");
+                Some(half + 5 * MS)
+            }
             Delay::Ms(ms) => Some(t0 + ms * MS),
             Delay::JustBeforeRto => Some(t0 + rto_i - MS.min(rto_i / 2)),
             Delay::AfterRetransmissions(r) => {
@@ -215,9 +284,21 @@ pub fn run(ctx: &RunCtx) -> i32 {
     let thorough = ctx.thorough();
     let apps: Arc<Vec<Vec<L>>> = Arc::new(vec![vec![]]);
     let shared = Shared::new();
-    let delays = [Delay::Ms(1), Delay::Ms(7), Delay::Ms(100), Delay::JustBeforeRto, Delay::AfterRetransmissions(1), Delay::AfterRetransmissions(2), Delay::Never];
+    let delays = [
+        Delay::Ms(1),
+        Delay::Ms(7),
+        Delay::Ms(100),
+        Delay::JustBeforeRto,
+        Delay::AfterRetransmissions(1),
+        Delay::AfterRetransmissions(2),
+        Delay::Never,
+        Delay::ErrorMs(9),
+        Delay::EarlyTimerThenAnswer,
+        Delay::Overlap(7, 20),
+        Delay::Overlap(30, 4),
+    ];
     let gaps = [Gap::Immediately, Gap::Ms(1_000), Gap::Ms(599_999), Gap::Ms(600_000), Gap::Ms(600_001), Gap::Ms(1_200_000)];
-    let red_delays = [Delay::Ms(7), Delay::Ms(100), Delay::AfterRetransmissions(1)];
+    let red_delays = [Delay::Ms(7), Delay::Ms(100), Delay::AfterRetransmissions(1), Delay::Overlap(30, 4)];
     let red_gaps = [Gap::Immediately, Gap::Ms(600_000), Gap::Ms(600_001)];
     let mut cfgs = vec![];
     for rto in [100u64, 500, 3000] {
@@ -227,7 +308,7 @@ pub fn run(ctx: &RunCtx) -> i32 {
     }
     let full: Vec<(Delay, Gap)> = delays.iter().flat_map(|d| gaps.iter().map(move |g| (*d, *g))).collect();
     let red: Vec<(Delay, Gap)> = red_delays.iter().flat_map(|d| red_gaps.iter().map(move |g| (*d, *g))).collect();
-    let (full_len, red_len) = if thorough { (4, 7) } else { (3, 5) };
+    let (full_len, red_len) = if thorough { (3, 6) } else { (3, 5) };
     // chains are enumerated lazily from their index (digits in base |menu|)
     fn chain_of(mut ix: u64, alpha: usize, len: usize) -> Vec<usize> {
         let mut v = Vec::with_capacity(len);
@@ -291,9 +372,9 @@ pub fn run(ctx: &RunCtx) -> i32 {
         rep,
         Finish {
             level: "model_checking",
-            rule: format!("for RTO {{100, 500, 3000}} ms x granularity {{1, 10, 1000}} ms: every chain of {} transactions over 7 response behaviours (1 / 7 / 100 ms, 1 ms before the first retransmission, after one / two retransmissions, never answered) x 6 gaps (immediately, 1 s, 599.999 s, 600 s, 600.001 s, 1200 s between consecutive request instants), every chain of {} transactions over a reduced 3 x 3 menu, and every periodic chain of period <= 3 over 6 response behaviours repeated to 300 transactions ({} chains in total), executed on the real client. After every send the interval recorded for the transaction (H1), the estimator value (H1) and the announced duration are compared with a double-precision RFC 6298 reference (first sample SRTT=R, RTTVAR=R/2; later RTTVAR before SRTT; RTO=SRTT+max(G,4*RTTVAR); sample iff completed without retransmission; reset iff more than 600 s since the previous request) within 1e-5 relative + 1 microsecond", full_len, red_len, n_jobs),
+            rule: format!("for RTO {{100, 500, 3000}} ms x granularity {{1, 10, 1000}} ms: every chain of {} transactions over 11 response behaviours (1 / 7 / 100 ms, 1 ms before the first retransmission, after one / two retransmissions, never answered, an error response, an early timer call followed by the answer, two overlapping requests answered in either order) x 6 gaps (immediately, 1 s, 599.999 s, 600 s, 600.001 s, 1200 s between consecutive request instants), every chain of {} transactions over a reduced 4 x 3 menu, and every periodic chain of period <= 3 over 6 response behaviours repeated to 300 transactions ({} chains in total), executed on the real client. After every send the interval recorded for the transaction (H1), the estimator value (H1) and the announced duration are compared with a double-precision RFC 6298 reference (first sample SRTT=R, RTTVAR=R/2; later RTTVAR before SRTT; RTO=SRTT+max(G,4*RTTVAR); sample iff completed without retransmission; reset iff more than 600 s since the previous request) within 1e-5 relative + 1 microsecond", full_len, red_len, n_jobs),
             assumptions: vec!["zero-length response times are excluded as the statement says".into(), "verdicts are taken after every send, so chains of the maximal length cover all shorter ones".into()],
-            required_symbols: vec!["sampled", "not-sampled-after-retransmission", "not-sampled-timed-out", "gap-beyond-600s", "gap-exactly-600s", "periodic-300"],
+            required_symbols: vec!["sampled", "not-sampled-after-retransmission", "not-sampled-timed-out", "gap-beyond-600s", "gap-exactly-600s", "periodic-300", "sampled-overlapping", "error-response-sampled", "early-timer-then-answer"],
             min_outcomes: 2,
             exhaustive: true,
             bounds: json!({"full_menu_len": full_len, "reduced_menu_len": red_len, "periodic_to": 300}),
